@@ -243,6 +243,17 @@ def rule_c(ctx, ix, f):
                   detail_absent='the dimension-dropping index no longer keeps exactly the ranged bounds and drops exactly the scalar ones '
                                 '(found: %s)' % {k: str(v) for k, v in got.items()},
                   shape=unparse(st)[:200], where=where(f, st))
+    # every array handed back is either the cached one, or the one the invalid value was applied to: a freshly built constant
+    # array (np.full(shape, np.nan), np.zeros(...)) knows nothing about whether values or a selection mask were asked for
+    fresh = [r for r in returns_of(f) if r.value is not None and isinstance(r.value, ast.Call)
+             and call_name(r.value) in ('full', 'zeros', 'ones', 'empty', 'full_like', 'zeros_like', 'ones_like', 'broadcast_to', 'tile', 'repeat')]
+    for r in fresh:
+        uses_iv = any(isinstance(n_, ast.Name) and n_.id == 'invalid_value' for n_ in ast.walk(r.value))
+        ctx.ob(R, f.construct + ' `%s`' % norm(r)[:60], 'a shortcut result is filled with the invalid value of the request (NaN for values, False for masks)',
+               uses_iv,
+               detail='compute_fixed_resolution_buffer returns `%s`, a constant array that does not depend on whether values or selection '
+                      'membership were requested: a mask request that falls outside the source gets NaN (truthy) instead of "not '
+                      'selected", and the result bypasses the cache bookkeeping' % norm(r.value), where=where(f, r))
     vals = {}
     for st in ast.walk(f.node):
         if isinstance(st, ast.Assign) and unparse(st.targets[0]) == 'invalid_value':
